@@ -166,6 +166,31 @@ theorem sar_round_smulww_avx2_eq_c (a b : Int) (bits : Nat) :
 example : sarRoundSmulwwC 2147483647 26345472 8 = -2 ∧ sarRoundSmulww64 2147483647 26345472 8 = 3372220414 ∧
     sarRoundSmulwwAvx2 2147483647 26345472 8 = -2 := by decide +kernel
 
+/-- The lane helpers with which silk/x86/NSQ_del_dec_avx2.c builds its per-sample quantisation (lines 125-190, 236-241)
+    compute, in every lane and for all 32-bit operands, what the C macros of silk_NSQ_del_dec_c compute:
+    `silk_mm_add_sat_epi32` = silk_ADD_SAT32 (= the mathematical clamp), `silk_mm_sub_sat_epi32` = silk_SUB_SAT32,
+    `silk_mm_limit_epi32` = silk_LIMIT_32 for either order of the limits, `silk_mm_smulww_epi32` = silk_SMULWW,
+    `silk_mm_smulwb_epi32` = silk_SMULWB, `silk_mm256_rand_epi32` = silk_RAND; `silk_mm_srai_round_epi32(a, bits)` =
+    silk_RSHIFT_ROUND(a, bits) for the two shift counts used (4, 10) PROVIDED `a + 2^(bits-1)` does not wrap — above that
+    point the helper differs from the macro (next example).  The order in which the kernel composes these helpers is
+    not modelled (UNPROVED `nsq_del_dec_simd_eq_c`). -/
+theorem nsq_del_dec_avx2_lane_ops_eq_c (a b c : Int) (ha : I32 a) (hb : I32 b) :
+    addSatLane a b = addSat32C a b ∧ addSat32C a b = max (-2147483648) (min 2147483647 (a + b)) ∧
+    subSatLane a b = subSat32C a b ∧ limitLane a b c = limit a b c ∧
+    wrap32 (smulwwLaneAvx2 a b) = smulww a b ∧ wrap32 (smulwbLaneAvx2 a b) = smulwb a b ∧ randLane a = randC a ∧
+    (a < 2147483648 - 8 → sraiRoundLane a 4 = rshiftRound a 4) ∧
+    (a < 2147483648 - 512 → sraiRoundLane a 10 = rshiftRound a 10) :=
+  ⟨addSatLane_eq a b ha hb, addSat32C_clamp a b ha hb, subSatLane_eq a b ha hb, limitLane_eq a b c,
+   smulwwLaneAvx2_eq a b, smulwbLaneAvx2_eq a b, randLane_eq a, (sraiRoundLane_eq a ha).1, (sraiRoundLane_eq a ha).2⟩
+
+example : addSatLane 2147483000 5000 = 2147483647 ∧ subSatLane (-2147483000) 5000 = -2147483648 ∧
+    limitLane 40000 (30 * 1024) (-(31 * 1024)) = 30720 ∧ wrap32 (smulwbLaneAvx2 (-70000) 40000) = 27275 ∧
+    randLane 12345 = randC 12345 := by decide
+/- OBSERVATION (not witnessed on an encoder state): at the top of the range the rounding shift of the AVX2 kernel and the C
+   macro disagree — and 2147483647 is exactly what the preceding `silk_mm_sub_sat_epi32` delivers when it saturates
+   (NSQ_del_dec_avx2.c:757-758 vs NSQ_del_dec.c:456-457): C gives +2^27, the helper -2^27. -/
+example : sraiRoundLane 2147483647 4 = -134217728 ∧ rshiftRound 2147483647 4 = 134217728 := by decide
+
 /-- The relational property the codec needs from the PVQ pulse search, for `op_pvq_search_sse2` and `op_pvq_search_c`
     alike: WHATEVER the floating-point parts return — the pre-search counts `proj` (SSE2: `_mm_cvttps_epi32` of an
     `_mm_rcp_ps`-scaled vector) and, in every greedy iteration, the position `pick s` of the (SSE2: `rsqrt`-approximated)
@@ -191,6 +216,24 @@ theorem pvq_search_relational (n K : Nat) (proj : List Nat) (pick : Pvq.St → N
 example : Pvq.searchSse2 4 7 [1, 0, 2, 0] (fun s => if s.left % 2 = 0 then 3 else 1) [true, false, false, true]
     = ([-1, 2, 2, -2], 13) := by decide
 example : Pvq.searchC 4 20 [0, 0, 0, 0] (fun _ => 2) [true, false, false, false] = ([-20, 0, 0, 0], 400) := by decide
+
+/-- The first contract of `pvq_search_relational` ("the pre-search never allocates more than K pulses") in EXACT
+    arithmetic, over any ordered field with a floor (ℚ, ℝ): for non-negative `|X[j]|` and the scale factor `r` actually
+    used, `r·Σ|x| < K+1` implies that the counts `floor(r·|x_j|)` are one per position and sum to at most K; and
+    `r·Σ|x| < K+1` holds for `r = (K+4/5)/Σ|x|` (the code's `(K+0.8f)·rcp(sum)`) even when reciprocal and sum carry a
+    relative error ε with `ε·(5K+4) < 1` (K = 128: ε < 1/644, while `_mm_rcp_ps` guarantees 1.5·2⁻¹²).  That the
+    binary32 evaluation (rounded sum and products) stays within this margin remains an assumption. -/
+theorem pvq_presearch_contract_exact {α : Type} [Field α] [LinearOrder α] [IsStrictOrderedRing α] [FloorRing α]
+    (K : Nat) (xs : List α) (S ε r : α) (hx : ∀ x ∈ xs, 0 ≤ x) (hS : Pvq.fsum xs = S) (hSpos : 0 < S) (hr0 : 0 ≤ r)
+    (hε : 0 ≤ ε) (hm : ε * (5 * (K : α) + 4) < 1) (hr : r ≤ ((K : α) + 4 / 5) / S * (1 + ε)) :
+    (Pvq.counts r xs).length = xs.length ∧ Pvq.sum (Pvq.counts r xs) ≤ K :=
+  Pvq.presearch_contract K r xs hx hr0 (by rw [hS]; exact Pvq.presearch_margin K S ε r hSpos hε hm hr)
+
+/- non-vacuity over ℚ: |X| = (1/2, 1/4, 1/4), K = 5, exact r = 5.8: counts 2,1,1 (4 ≤ 5, one pulse left for the greedy loop) -/
+example : Pvq.counts (29 / 5 : ℚ) [1 / 2, 1 / 4, 1 / 4] = [2, 1, 1] := by
+  simp only [Pvq.counts, List.map]
+  norm_num [Int.floor_eq_iff]
+  decide
 
 /-! ### (iii) float reduction kernels: lane decomposition = sequential sum, every length -/
 
